@@ -658,6 +658,9 @@ func GenSTL(r *prng.R, idx int) Doc {
 				text = append(text, 0x0a, 0x0a)
 			}
 		}
+		if r.Bool(0.08) { // a floating diacritic with nothing behind it, at the very end of the text field
+			text = append(text, 0xc2)
+		}
 		if len(text) > 112 {
 			text = text[:112]
 		}
@@ -725,7 +728,7 @@ func Fixed() []Doc {
 		"1\n00:00:01.000 --> 00:00:02.000\nfirst\n\n2\n00:00:03.000 --> 00:00:04.000 align:left\n<v Bob>second\nline\n\n3\n00:00:05.000 --> 00:00:06.000\nthird\n"
 	ttml := `<?xml version="1.0" encoding="UTF-8"?>
 <tt xml:lang="en" xmlns="http://www.w3.org/ns/ttml"><head><styling><style xml:id="s1" tts:color="white" xmlns:tts="http://www.w3.org/ns/ttml#styling"/></styling></head>
-<body><div><p begin="00:00:01.000" end="00:00:02.000" style="s1">sixteen</p><p begin="00:00:03.000" end="00:00:04.000">bits</p></div></body></tt>`
+<body><div><p begin="00:00:01.000" end="00:00:02.000" style="s1">sixteen 😀 smile</p><p begin="00:00:03.000" end="00:00:04.000">bits é中🎵</p></div></body></tt>`
 	t := Doc{Name: "fixed-ttml", Format: "ttml", Data: []byte(ttml), Cues: 2, Gen: true}
 	return []Doc{
 		{Name: "fixed-vtt-headers", Format: "vtt", Data: []byte(vtt), Cues: 3, Gen: true},
